@@ -41,7 +41,7 @@ MAX_DEPTH = 40      # call-inlining depth
 MAX_REC = 4         # same instance on the stack
 
 
-PURE_DEFS = ("rem", "and", "div", "shr", "shl_trunc", "trunc", "wrap", "le_byte", "swap_bytes")
+PURE_DEFS = ("rem", "and", "div", "shr", "shl_trunc", "trunc", "wrap", "le_byte", "swap_bytes", "lz")
 
 
 class Unsupported(Exception):
@@ -1052,6 +1052,8 @@ class Interp:
             s2 = st.copy()
             try:
                 s2.assume_cmp(op, e[2], e[3])
+                self.refine_lz(s2, e[2])
+                self.refine_lz(s2, e[3])
             except Infeasible:
                 return []
             return [s2]
@@ -1077,6 +1079,21 @@ class Interp:
                 out.extend(self.branch(s1, e[2], want))
             return out
         raise Unsupported("bool expr " + str(k))
+
+    def refine_lz(self, st, lin):
+        """a symbol defined as leading_zeros(x): bounds on it become bounds on x  (lz <= k  <=>  x >= 2^(w-1-k);  lz >= k  <=>  x < 2^(w-k))"""
+        sg = lin.single()
+        if not sg or sg[1] != 1 or lin.c != 0:
+            return
+        d = self.tab.defn(sg[0])
+        if not d or d[0] != "lz":
+            return
+        x, w = d[1], d[2]
+        lo, hi = st.bounds(sg[0])
+        if hi is not None and hi < w:
+            st.assume_ge0(x - (1 << (w - 1 - hi)))
+        if lo is not None and lo > 0:
+            st.assume_ge0(Lin.const((1 << (w - lo)) - 1) - x)
 
     def prove_bool(self, st, e, want):
         """is bool expr e entailed to have truth value `want`?"""
@@ -1307,6 +1324,22 @@ class Interp:
         res = callee.get("resolved")
         env = frame.env
         name = callee["def"]
+        if res is None and env and "trait" in callee and (callee.get("self_ty") or {}).get("k") == "param" and "ctor_adt" not in callee:
+            # a trait method called on a type parameter of a generic helper that this instance binds to a concrete local type:
+            # resolve it here, so that contracts / opaque-component decisions see the same callee a non-generic caller would name
+            sty = subst(callee["self_ty"], env)
+            if sty.get("k") not in ("param", "alias", "other", "deep"):
+                if self.impl_index is None:
+                    self.build_impl_index()
+                if callee["trait"] in self.impl_index:
+                    targs = [subst_garg(a, env) for a in callee["args"][1:]]
+                    hit = self.find_impl_method(callee["trait"], callee["method"], sty, targs)
+                    if hit is not None:
+                        callee = dict(callee)
+                        callee["self_ty"] = sty
+                        callee["resolved"] = {"def": hit[0]["def"], "local": True, "ik": "item", "args": [], "cenv": hit[1],
+                                              "path_with_args": hit[0]["def"]}
+                        res = callee["resolved"]
         if "ctor_adt" in callee:
             if callee["ctor_is_enum"]:
                 v = callee["ctor_variant"]
@@ -1323,10 +1356,10 @@ class Interp:
             body = self.f.bodies[res["def"]]
             if body.get("auto_derived") and body.get("name") == "default" and body.get("impl_trait") == "std::default::Default":
                 # #[derive(Default)]: the expanded body builds the value from its fields' defaults; it is analysed like written code
-                return self.call_local_inline(frame, bb, st, body, self.env_for(body, res["args"], env), args)
+                return self.call_local_inline(frame, bb, st, body, res["cenv"] if "cenv" in res else self.env_for(body, res["args"], env), args)
             if body.get("auto_derived"):
                 return self.call_derived(frame, bb, st, body, callee, args, dest_ty)
-            cenv = self.env_for(body, res["args"], env)
+            cenv = res["cenv"] if "cenv" in res else self.env_for(body, res["args"], env)
             return self.call_local(frame, bb, st, body, cenv, args)
         # 2. trait method whose self type becomes concrete after substitution
         if "trait" in callee and "self_ty" in callee:
